@@ -1,8 +1,81 @@
-import Heph.Model.Graph
+import Heph.Proofs.GraphBfs
+import Heph.Proofs.GraphDfs
+import Heph.Proofs.GraphSrc
+/-!
+# C19 — graph queries agree with their textbook definitions
+
+The property theorems about the model `Heph/Model/Graph.lean` of `src/graph_utils.py`; the
+declarative notions (`Reach`, `ReachAny`, `Conn`, `SimplePath`, `MaximalPath`, `IsSourceOf`)
+are in `Heph/Spec/Graph.lean`.  Every theorem states both the exact characterisation of the
+answer and that the answer exists (the fuel of the worklist never runs out).  `WFG g` says
+that the keys of the dictionary are distinct.
+-/
 namespace Heph.Props.C19
 open Heph.Graph
 
-theorem existIn_irrefl (x : List Nat) : existIn x x = false := by
-  simp [existIn]
+/-- a graph with a cycle `0 → 1 → 0`, a self-loop on `2`, an isolated key `3`, a dangling
+    (non-key) target `7` and a duplicate neighbour -/
+def demo : Graph := [(0, [1, 2, 1]), (1, [0]), (2, [2, 7]), (3, [])]
+
+theorem demo_wf : WFG demo := by decide
+
+/-- `reachable` always answers, and answers `True` exactly when the start vertex is a key and
+    the destination is reachable from it through key vertices. -/
+theorem reachable_iff {g : Graph} (hg : WFG g) (s d : Nat) :
+    (reachable g s d = some true ↔ s ∈ keys g ∧ Reach g s d) ∧ reachable g s d ≠ none := by
+  rcases reachable_correct hg s d with h | h
+  · simp [h.1, h.2]
+  · simp [h.1, h.2]
+
+example : WFG demo ∧ reachable demo 1 2 = some true ∧ reachable demo 2 0 = some false ∧
+    reachable demo 0 7 = some false := by decide
+
+/-- the `False` answers of `reachable` -/
+theorem reachable_false_iff {g : Graph} (hg : WFG g) (s d : Nat) :
+    reachable g s d = some false ↔ ¬ (s ∈ keys g ∧ Reach g s d) := by
+  rcases reachable_correct hg s d with h | h
+  · simp [h.1, h.2]
+  · simp [h.1, h.2]
+
+/-- `dfs` (the traversal used by the feasibility check of type inference) always answers, with
+    exactly the vertices other than the source that can be reached from it in one or more
+    steps, through key and non-key targets alike.  (Holds for every graph; `WFG` is not needed.) -/
+theorem dfs_spec (g : Graph) (s : Nat) :
+    ∃ l, dfs g s = some l ∧ ∀ n, n ∈ l ↔ n ≠ s ∧ ReachAny g s n :=
+  dfs_correct g s
+
+example : dfs demo 0 = some [1, 2, 7] ∧ dfs demo 2 = some [7] ∧ dfs demo 7 = some [] := by decide
+
+/-- `connected` always answers, and answers `True` exactly when the start vertex is a key and
+    the destination is weakly connected to it. -/
+theorem connected_iff {g : Graph} (hg : WFG g) (s d : Nat) :
+    (connected g s d = some true ↔ s ∈ keys g ∧ Conn g s d) ∧ connected g s d ≠ none := by
+  rcases connected_correct hg s d with h | h
+  · simp [h.1, h.2]
+  · simp [h.1, h.2]
+
+example : WFG demo ∧ connected demo 2 1 = some true ∧ connected demo 2 3 = some false := by decide
+
+/-- `find_sources` on a key vertex returns, without duplicates, exactly the keys without
+    predecessor from which the vertex is reachable; on a vertex that is not a key it raises
+    `KeyError`. -/
+theorem sources_spec {g : Graph} (hg : WFG g) (v : Nat) :
+    (v ∈ keys g → ∃ l, findSources g v = .ok l ∧ l.Nodup ∧
+      ∀ x, x ∈ l ↔ x ∈ keys g ∧ (∀ y ∈ keys g, x ∉ adj g y) ∧ Reach g x v) ∧
+    (v ∉ keys g → findSources g v = .keyError) :=
+  ⟨findSources_correct hg v, findSources_keyError g v⟩
+
+example : findSources [(0, [1]), (1, [2, 1]), (2, [1]), (4, [2])] 1 = .ok [4, 0] ∧
+    findSources demo 0 = .ok [] ∧ findSources demo 7 = .keyError := by decide
+
+/-- `bi_reachable` -/
+theorem biReachable_iff {g : Graph} (hg : WFG g) (s d : Nat) :
+    (biReachable g s d = some true ↔
+      (s ∈ keys g ∧ Reach g s d) ∨ (d ∈ keys g ∧ Reach g d s)) ∧ biReachable g s d ≠ none := by
+  rcases biReachable_correct hg s d with h | h
+  · have := h.2; unfold BiReach at this; simp [h.1, this]
+  · have := h.2; unfold BiReach at this; simp [h.1, this]
+
+example : WFG demo ∧ biReachable demo 2 0 = some true ∧ biReachable demo 3 0 = some false := by decide
 
 end Heph.Props.C19
